@@ -42,6 +42,7 @@
 #endif
 /* ghost character index used by spliced loop invariants (defined by every contract source) */
 extern size_t vf_gc;
+extern size_t vf_gn; /* ghost: C-string length witness (model loop contracts) */
 extern size_t vf_gb, vf_gb2; /* ghost byte offsets used by spliced loop invariants of the writers */
 extern size_t vf_gj;
 /* ghost equality oracle of the name look-ups: vf_match[k] <=> element k carries the searched name */
